@@ -387,6 +387,11 @@ func (r *run) rec(op map[string]any, ln *Line) {
 				EncryptionPrivateKeyBytes: rb(32), EncryptionPrivateKeyType: types.KEYTYPE_X25519}
 			if has(present, "nonce") {
 				nc.RegistrationNonce = rb(32)
+				if lt, _ := op["longNonce"].(bool); lt {
+					// server-led registration: the node-side nonce is the decoded activation token, not 32 bytes
+					tn, _ := proto.Marshal(&types.ServerLedActivationTokenNonce{Nonce: rb(32), HmacKeyBytes: rb(32)})
+					nc.RegistrationNonce = tn
+				}
 			}
 			if has(present, "prev.priv") {
 				nc.PreviousEncryptionKey = &types.EncryptionKey{KeyId: "old", PrivateKeyPkcs8: rb(32), PrivateKeyType: types.KEYTYPE_X25519, PublicKeyPkix: rb(32), PublicKeyType: types.KEYTYPE_X25519}
@@ -630,6 +635,40 @@ func (r *run) flow(op map[string]any, ln *Line) {
 		return
 	}
 	add("server.enc.priv", ni.ServerEncryptionPrivateKeyBytes)
+	if name == "rotateNamed" {
+		// credential rotation in which the new credentials name the previous certificate key (a field the request format
+		// provides); neither side asks for the previous encryption key to be retained
+		newCreds, err := types.NewNodeCredentials(ctx, node, append(sopts, nodeenrollment.WithSkipStorage(true))...)
+		if err != nil {
+			fail(err)
+			return
+		}
+		newCreds.PreviousCertificatePublicKeyPkix = creds.CertificatePublicKeyPkix
+		add("node2.cert.priv", newCreds.CertificatePrivateKeyPkcs8)
+		add("node2.enc.priv", newCreds.EncryptionPrivateKeyBytes)
+		req2, err := newCreds.CreateFetchNodeCredentialsRequest(ctx)
+		if err != nil {
+			fail(err)
+			return
+		}
+		if _, err := registration.AuthorizeNode(ctx, srv, req2, sopts...); err != nil {
+			fail(err)
+			return
+		}
+		resp2, err := registration.FetchNodeCredentials(ctx, srv, req2, sopts...)
+		if err != nil {
+			fail(err)
+			return
+		}
+		if _, err := newCreds.HandleFetchNodeCredentialsResponse(ctx, node, resp2, sopts...); err != nil {
+			fail(err)
+			return
+		}
+		kid2, _ := nodeenrollment.KeyIdFromPkix(newCreds.CertificatePublicKeyPkix)
+		if ni2, err := types.LoadNodeInformation(ctx, srv, kid2, sopts...); err == nil {
+			add("server2.enc.priv", ni2.ServerEncryptionPrivateKeyBytes)
+		}
+	}
 	if name == "rotate" {
 		// credential rotation on both sides, each retaining the previous key as the library offers
 		newCreds, err := types.NewNodeCredentials(ctx, node, append(sopts, nodeenrollment.WithSkipStorage(true))...)
